@@ -30,7 +30,7 @@ def sites(arch):
     for tmpl, kind, _ in EXTRA_SITES[arch]:
         out.append((tmpl, (lambda t, tmpl=tmpl: "  " + tmpl.format(t)), kind))
     out += [("@db", lambda t: f"@db 1, {t}, 2", "b"), ("@dw", lambda t: f"@dw {t}, 3", "w"),
-            ("@db last", lambda t: f"@db 1, {t}", "b"), ("@dw last", lambda t: f"@dw 3, {t}", "w"), ("@dw only", lambda t: f"@dw {t}", "w"),
+            ("@db last", lambda t: f"@db 1, {t}", "b"), ("@dw last", lambda t: f"@dw 3, {t}", "w"), ("@dw only", lambda t: f"@dw {t}", "w"), ("@ds 0 fill", lambda t: f"@ds 0, {t}", "b"), ("@ds 1 fill", lambda t: f"@ds 1, {t}", "b"),
             ("@ds fill", lambda t: f"@ds 3, {t}", "b"), ("@assert", lambda t: f"@assert {t} == {t}", "a"),
             ("@assert0", lambda t: f"@assert {t} - {t}", "a"),
             ("@assert-neg", lambda t: f"@assert {t} - 9", "a"), ("@assert-neg2", lambda t: f"@assert 0 - {t} - 1", "a")]
